@@ -52,10 +52,10 @@ def run(chk):
     nd = chk.n(600, 4000)
     ni = chk.n(700, 6000)
     ni2 = chk.n(150, 1500)
-    cases = (c06.corpus(2) + [dw.gen_case(chk.rng, chk.tier, 2) for _ in range(n)]
-             + [dw.gen_case_deep(chk.rng, chk.tier, 1, lift_bias=0.5) for _ in range(nd)]
-             + [dw.gen_case_install(chk.rng, chk.tier, 1) for _ in range(ni)]
-             + [dw.gen_case_install(chk.rng, chk.tier, 2) for _ in range(ni2)])
+    cases = (c06.corpus(2) + [dw.add_sweep_axes(chk.rng, dw.gen_case(chk.rng, chk.tier, 2), 2) for _ in range(n)]
+             + [dw.add_sweep_axes(chk.rng, dw.gen_case_deep(chk.rng, chk.tier, 1, lift_bias=0.5), 1) for _ in range(nd)]
+             + [dw.add_sweep_axes(chk.rng, dw.gen_case_install(chk.rng, chk.tier, 1), 1) for _ in range(ni)]
+             + [dw.add_sweep_axes(chk.rng, dw.gen_case_install(chk.rng, chk.tier, 2), 2) for _ in range(ni2)])
     info = c06.evaluate(chk, cases, 2, FIELDS, PROP, extra_oracle=dw.oracle_state_c03)
     compare_interpolation(chk, cases, info)
     keys, samples = [], []
@@ -94,7 +94,10 @@ def run(chk):
                      'deep: d=2, lmin 1..3, 8-16 directly driven steps, stripes of every (d,l) and of every component; install: 1-3 steps from '
                      'randomly constructed valid deep states, stripes (part of them also points + interpolant)); after every step stripes for '
                      'every (d,l), stripes and (where observed) points of every component grid compared exactly with the model; '
-                     'non-trivial = >=2 splits (install: >=1 step) and >=3 component grids; distinct by options, installed trees and split positions',
+                     'non-trivial = >=2 splits (install: >=1 step) and >=3 component grids; distinct by options, installed trees and split positions. Lessons sweep on top of every family (drawn independently per case): observer calls between the '
+                     'steps with argument-immutability / returned-object-overwrite probes, bounds / level vectors / points as other object kinds, far-off / tiny / '
+                     'huge boxes and benefit magnitudes 2^-60..2^30, further performSpatiallyAdaptiv legs on the same object, a second object alive in the '
+                     'process, d = 1, a few trees with 200-300 intervals (histogram keys axis:*)',
                      samples)
 
 
